@@ -6,6 +6,10 @@ import os
 VERIF = os.path.dirname(os.path.dirname(os.path.abspath(__file__)))
 
 CLAIMED = {
+    "C05": dict(cat="exploration", design="§5 C05", engine="xmod",
+                text="A host binary dlopen()s a plugin cdylib built separately by another compiler version / optimisation level / repr(Rust) layout seed, each with its own tagging allocator and payload registry; seeded lifecycle histories over plugin-made objects are compared with the same histories on host-made objects, and both allocators watch for foreign or mis-sized frees and leftover instances.",
+                note="Four installed toolchains only; both modules share the OS allocator underneath, ownership is observed by the per-module tracking tables.",
+                tech="runtime monitoring: cross-module differential histories + per-module tagging allocators"),
     "C16": dict(cat="exploration", design="§5 C16", engine="cview",
                 text="A C program compiled by gcc and clang with ASan+UBSan includes only the published declarations (cview/cglue_rt.h) and operates values created by Rust - and forges values consumed by Rust - over seeded operation sequences; Rust-side drop/refcount counters and C-side models are compared after every step; debug and release (thorough: randomized repr(Rust) layout) builds of the library.",
                 note="Trusts the hand-written header as the published C view (cross-checked against examples/pregen-headers).",
@@ -107,6 +111,7 @@ def main():
                    baseline_off_cmd="cd /repo && cargo test --workspace --no-fail-fast --offline",
                    source_commits=[], add_only=True),
         engines=[
+            dict(name="xmod", path="xmod/", serves_properties=["C05"], kind_free_text="shared API crate, plugin cdylib and host binary built by different toolchains"),
             dict(name="cview", path="cview/", serves_properties=["C16"], kind_free_text="C header of the published runtime-type declarations, C driver, Rust staticlib of constructors/consumers/counters"),
             dict(name="probe", path="probe/", serves_properties=["C09"], kind_free_text="auto-trait matrix probe and safe-code race witnesses"),
             dict(name="expander", path="expander/", serves_properties=["C03", "C04"],
